@@ -427,6 +427,7 @@ def clip_cases(draw, for_get_stats=False):
     case["get_indices"] = draw(st.booleans())
     case["defaults"] = draw(st.integers(0, 7)) == 0          # use the default nsig/niter (4, 4)
     case["layout"] = draw(st.sampled_from(LY.KINDS))
+    case["default_extra"] = draw(st.sampled_from([False, False, True]))
     return case
 
 
@@ -548,6 +549,12 @@ def check_clip(case, ctx):
     x, w = _clip_arrays(case)
     extra = {}
     kw = {"get_err": case["get_err"], "get_indices": case["get_indices"], "extra": extra, "silent": True}
+    if case.get("default_extra"):
+        # the caller does not pass extra= and asks for the indices in the return value; an earlier call in the same
+        # process (other data, points clipped there) must leave no trace
+        must(es.sigma_clip, np.array([0.0, 0.0, 0.0, 0.0, 1.0, 1000.0, -1000.0] * 3), nsig=1.0, niter=5, silent=True)
+        del kw["extra"]
+        kw["get_indices"] = True
     nsig, niter = 4, 4
     if not case["defaults"]:
         nsig, niter = case["nsig"], case["niter"]
@@ -556,12 +563,15 @@ def check_clip(case, ctx):
     if w is not None:
         kw["weights"] = LY.relayout(w, lay)
     r = must(es.sigma_clip, LY.relayout(x, lay), **kw)
-    nret = 2 + int(case["get_err"]) + int(case["get_indices"])
+    nret = 2 + int(case["get_err"]) + int(kw["get_indices"])
     require(isinstance(r, (list, tuple)) and len(r) == nret, "sigma_clip returned %d values, expected %d",
             len(r) if isinstance(r, (list, tuple)) else -1, nret)
-    require("indices" in extra, "extra['indices'] was not filled in")
-    ind = np.asarray(extra["indices"])
-    if case["get_indices"]:
+    if "extra" in kw:
+        require("indices" in extra, "extra['indices'] was not filled in")
+        ind = np.asarray(extra["indices"])
+    else:
+        ind = np.asarray(r[-1])
+    if kw["get_indices"] and "extra" in kw:
         require(np.array_equal(np.asarray(r[-1]), ind), "returned indices differ from extra['indices']")
     require(ind.ndim == 1 and ind.size >= 1 and ind.dtype.kind in "iu", "indices malformed: %r", ind)
     require(np.all(np.diff(ind) > 0) and ind[0] >= 0 and ind[-1] < x.size,
